@@ -616,3 +616,67 @@ R.contract(
 
 # `st run` (the wiring of the command-line options into the run configuration) is verified in C13's module; its C07_ clauses belong to this property: the same job runs here.
 SHARED_JOBS = [("C13", "schemathesis.cli.commands.run:run#wiring")]
+
+
+# ------------------------------------------------------------------------------------------------- Matcher constructors: the matcher tests the NAMED attribute against the GIVEN criterion
+def _partial_record(it, a, k):
+    from pyvc.values import VObj
+
+    return VObj(it.resolve_class("spec:PartialApplication"), {"fn": a[0], "args": tuple(a[1:]), "kwargs": dict(k)})
+
+
+def _re_compile(it, a, k):
+    from pyvc.values import VObj
+
+    flags = k.get("flags", a[1] if len(a) > 1 else 0)
+    return VObj(it.resolve_class("spec:CompiledPattern"), {"pattern": a[0], "flags": flags})
+
+
+R.extern["functools.partial"] = _partial_record
+R.extern["re.compile"] = _re_compile
+R.nominal_methods["spec:CompiledPattern"] = {"__repr__": lambda it, obj, a, k: f"re.compile({obj.fields['pattern']!r}" + (f", flags={obj.fields['flags']}" if obj.fields["flags"] else "") + ")"}
+R.extern_values["re.IGNORECASE"] = lambda it: 2
+R.spec_funcs["function_name"] = lambda it, f: getattr(f, "name", None) or getattr(getattr(f, "node", None), "name", None)
+R.spec_funcs["repr_of"] = lambda it, v: repr(v)
+R.spec_funcs["IGNORECASE"] = lambda it: 2
+_MATCHER_VARIANT = "constructor"
+R.contract(
+    F + "Matcher.for_value",
+    variant=_MATCHER_VARIANT,
+    prop="C07",
+    args={"cls": Global(F + "Matcher"), "attribute": Choice("path", "method", "name", "tag", "operation_id"), "expected": Choice("GET", "/users", ["GET", "POST"], ["/users"], [])},
+    raises=[],
+    ensures={
+        # "exercised only if it matches an include filter": the filter built for `--include-X v` tests attribute X against v (a list: membership)
+        "tests_the_named_attribute_against_the_given_value": "function_name(result.func.fn) == ('by_value_list' if is_instance(expected, 'list') else 'by_value') and "
+                                                             "result.func.args == () and result.func.kwargs == {'attribute': attribute, 'expected': expected}",
+        # two criteria are the same filter exactly when attribute and value are the same (FilterSet refuses duplicates by this identity)
+        "identity_is_attribute_and_value": "attribute in result.label and repr_of(expected) in result.label and result._hash == hash(result.label)",
+    },
+    bounded_note="five attributes x five expected values (strings and lists)",
+    replayable=False,
+)
+R.contract(
+    F + "Matcher.for_regex",
+    variant=_MATCHER_VARIANT,
+    prop="C07",
+    args={"cls": Global(F + "Matcher"), "attribute": Choice("path", "method", "name", "tag", "operation_id"), "regex": OneOf(Choice("^/users", "get|post"), Obj("spec:CompiledPattern", pattern=Const("x+"), flags=Const(0)))},
+    raises=[],
+    ensures={
+        "tests_the_named_attribute_against_the_given_pattern": "function_name(result.func.fn) == 'by_regex' and result.func.args == () and result.func.kwargs['attribute'] == attribute and "
+                                                               "((result.func.kwargs['regex'] is regex) if not is_instance(regex, 'str') else result.func.kwargs['regex'].pattern == regex)",
+        # HTTP methods are matched case-insensitively (`--include-method-regex get` selects GET), every other attribute exactly as written
+        "only_method_patterns_ignore_case": "implies(is_instance(regex, 'str'), result.func.kwargs['regex'].flags == (IGNORECASE() if attribute == 'method' else 0))",
+    },
+    bounded_note="five attributes x two pattern texts and one precompiled pattern",
+    replayable=False,
+)
+R.contract(
+    F + "Matcher.for_function",
+    variant=_MATCHER_VARIANT,
+    prop="C07",
+    args={"cls": Global(F + "Matcher"), "func": Obj("spec:UserPredicateFn", __name__=Const("only_users"))},
+    raises=[],
+    ensures={"the_users_function_decides": "result.func is func and result.label == 'only_users'"},
+    replayable=False,
+)
